@@ -870,6 +870,7 @@ impl World {
         }
         all.extend(opts);
         let k = self.ch.borrow_mut().choose("step", all.len());
+        self.log.choice_pos.set(self.ch.borrow().points.len() as u32);
         let ev = all[k].clone();
         if ev == Ev::Stop {
             return false;
@@ -938,6 +939,7 @@ pub struct Exec {
     pub steps: u32,
     pub state_hashes: Vec<u64>,
     pub err: Option<String>,
+    pub call_pos: Vec<(Op, u32)>,
 }
 
 pub fn execute(cfg: &SCfg, prefix: &[u16], suppress_cancel: Option<u32>) -> Exec {
@@ -1012,6 +1014,7 @@ pub fn execute(cfg: &SCfg, prefix: &[u16], suppress_cancel: Option<u32>) -> Exec
             steps: w.log.steps.get(),
             state_hashes: w.state_hashes.borrow().clone(),
             err,
+            call_pos: w.core.borrow().call_pos.clone(),
         };
         drop(ch);
         ex
